@@ -701,52 +701,88 @@ class Context:
         ctx = self  # Reference for closures
 
         def parse_fn(*args):
-            text = to_string(args[0]) if args else ""
-            try:
-                py_value = json.loads(text)
-                return ctx._to_js(py_value)
-            except json.JSONDecodeError as e:
-                from .errors import JSSyntaxError
+            from .errors import JSSyntaxError
 
+            text = to_string(args[0]) if args else "undefined"
+
+            def reject_constant(name):
+                # NaN, Infinity and -Infinity are not JSON
+                raise ValueError(f"Unexpected token {name}")
+
+            def parse_int(literal):
+                # JSON numbers are doubles
+                return int(literal) if len(literal) <= 15 else float(literal)
+
+            try:
+                py_value = json.loads(
+                    text, parse_constant=reject_constant, parse_int=parse_int
+                )
+            except (ValueError, RecursionError) as e:
                 raise JSSyntaxError(f"JSON.parse: {e}")
+            return ctx._to_js(py_value)
+
+        def quote_json(text):
+            """QuoteJSONString: only what the JSON grammar requires is escaped."""
+            out = ['"']
+            escapes = {
+                '"': '\\"',
+                "\\": "\\\\",
+                "\b": "\\b",
+                "\f": "\\f",
+                "\n": "\\n",
+                "\r": "\\r",
+                "\t": "\\t",
+            }
+            for ch in text:
+                if ch in escapes:
+                    out.append(escapes[ch])
+                elif ch < " " or "\ud800" <= ch <= "\udfff":
+                    out.append(f"\\u{ord(ch):04x}")
+                else:
+                    out.append(ch)
+            out.append('"')
+            return "".join(out)
 
         def stringify_fn(*args):
+            from .errors import JSTypeError, JSRangeError
+
             value = args[0] if args else UNDEFINED
+            in_progress = []  # containers being serialized (cycle detection)
 
-            # Convert JS value to Python for json.dumps, handling undefined specially
-            def to_json_value(v):
-                if v is UNDEFINED:
-                    return None  # Will be filtered out for object properties
+            def serialize(v):
+                """SerializeJSONProperty: the JSON text, or None for undefined."""
                 if v is NULL:
-                    return None
+                    return "null"
                 if isinstance(v, bool):
-                    return v
+                    return "true" if v else "false"
                 if isinstance(v, (int, float)):
-                    return v
+                    if isinstance(v, float) and (math.isnan(v) or math.isinf(v)):
+                        return "null"
+                    return to_string(v)
                 if isinstance(v, str):
-                    return v
-                if isinstance(v, JSArray):
-                    # For arrays, undefined becomes null
-                    return [
-                        None if elem is UNDEFINED else to_json_value(elem)
-                        for elem in v._elements
-                    ]
-                if isinstance(v, JSObject):
-                    # For objects, skip undefined values
-                    result = {}
-                    for k, val in v._properties.items():
-                        if val is not UNDEFINED:
-                            result[k] = to_json_value(val)
-                    return result
-                return None
+                    return quote_json(v)
+                if not isinstance(v, JSObject) or isinstance(v, JSCallableObject):
+                    return None  # undefined, functions
+                if any(v is seen for seen in in_progress):
+                    raise JSTypeError("Converting circular structure to JSON")
+                if len(in_progress) >= 200:
+                    raise JSRangeError("JSON.stringify: structure is nested too deeply")
+                in_progress.append(v)
+                try:
+                    if isinstance(v, JSArray):
+                        items = [serialize(elem) or "null" for elem in v._elements]
+                        return "[" + ",".join(items) + "]"
+                    members = []
+                    for key in v.keys():
+                        text = serialize(v.get(key))
+                        if text is not None:
+                            members.append(quote_json(key) + ":" + text)
+                    return "{" + ",".join(members) + "}"
+                finally:
+                    in_progress.pop()
 
-            py_value = to_json_value(value)
-            try:
-                return json.dumps(py_value, separators=(",", ":"))
-            except (TypeError, ValueError) as e:
-                from .errors import JSTypeError
-
-                raise JSTypeError(f"JSON.stringify: {e}")
+            text = serialize(value)
+            return UNDEFINED if text is None else text
 
         json_obj.set("parse", parse_fn)
         json_obj.set("stringify", stringify_fn)
